@@ -405,3 +405,69 @@ def repo_head():
     rc, out = sh("git -C %s rev-parse --short HEAD" % REPO, timeout=20)
     rc2, out2 = sh("git -C %s status --porcelain" % REPO, timeout=20)
     return out.strip() + ("+dirty" if out2.strip() else "")
+
+
+# --------------------------------------------------------------------------
+# extracted runner (high-volume correspondence)
+# --------------------------------------------------------------------------
+EXTRACT_DIR = os.path.join(BUILD, "extract")
+MODELRUN = os.path.join(EXTRACT_DIR, "modelrun")
+
+
+def build_modelrun(timeout=600):
+    """(re)extract the models and compile the OCaml runner when any .vo it depends on is newer.
+    Requires coq/Model/Dispatch.vo to be built (a COQ_TARGET of the properties that use the runner)."""
+    os.makedirs(EXTRACT_DIR, exist_ok=True)
+    with Lock("extract"):
+        newest = 0
+        for root, _, files in os.walk(COQ):
+            for f in files:
+                if f.endswith(".vo"):
+                    newest = max(newest, os.path.getmtime(os.path.join(root, f)))
+        newest = max(newest, os.path.getmtime(os.path.join(VERIF, "ocaml", "driver.ml")),
+                     os.path.getmtime(os.path.join(COQ, "Extract", "Extract.v")))
+        if os.path.exists(MODELRUN) and os.path.getmtime(MODELRUN) >= newest:
+            return True, "cached"
+        rc, out = sh(["timeout", str(timeout), "coqc", "-noglob", "-Q", COQ, "PMH", os.path.join(COQ, "Extract", "Extract.v")],
+                     cwd=EXTRACT_DIR, timeout=timeout + 30)
+        if rc != 0:
+            return False, out
+        for junk in ("Extract.vo", "Extract.vok", "Extract.vos", ".Extract.aux"):
+            jp = os.path.join(COQ, "Extract", junk)
+            if os.path.exists(jp):
+                os.remove(jp)
+        open(os.path.join(EXTRACT_DIR, "driver.ml"), "w").write(open(os.path.join(VERIF, "ocaml", "driver.ml")).read())
+        rc, out = sh("ocamlfind ocamlopt -O2 -w -a modelcore.mli modelcore.ml driver.ml -o modelrun.tmp && mv modelrun.tmp modelrun",
+                     cwd=EXTRACT_DIR, timeout=timeout)
+        if rc != 0:
+            return False, out
+    return True, "built"
+
+
+def modelrun(lines, timeout=1200, nproc=NCPU):
+    """lines: list of lists of ints (first = property code). returns list of lists of ints (same order)."""
+    from concurrent.futures import ThreadPoolExecutor
+    if not lines:
+        return []
+    chunks = [lines[i::nproc] for i in range(nproc)]
+
+    def one(chunk):
+        if not chunk:
+            return []
+        txt = "\n".join(" ".join(str(int(x)) for x in l) for l in chunk) + "\n"
+        p = subprocess.run([MODELRUN], input=txt, stdout=subprocess.PIPE, stderr=subprocess.PIPE,
+                           timeout=timeout, universal_newlines=True)
+        if p.returncode != 0:
+            raise RuntimeError("modelrun failed: rc=%d %s" % (p.returncode, p.stderr[-500:]))
+        outl = p.stdout.strip("\n").split("\n")
+        if len(outl) != len(chunk):
+            raise RuntimeError("modelrun returned %d lines for %d cases" % (len(outl), len(chunk)))
+        return [[int(t) for t in l.split()] for l in outl]
+
+    with ThreadPoolExecutor(max_workers=nproc) as ex:
+        parts = list(ex.map(one, chunks))
+    res = [None] * len(lines)
+    for ci, part in enumerate(parts):
+        for j, r in enumerate(part):
+            res[ci + j * nproc] = r
+    return res
